@@ -42,7 +42,7 @@ def cases(tier, sd):
     for i, c in enumerate(base[:nw]):
         c = dict(c, kind='walk')
         out.append(c)
-    for r in range(4 if tier == "quick" else 16):
+    for r in range(8 if tier == "quick" else 16):     # 4 styles x 2 tetrad choices
         out.append(dict(kind='sweep', seed=100 * sd + r))
     for r in range(6 if tier == "quick" else 30):
         out.append(dict(kind='over_time', seed=100 * sd + r))
@@ -234,7 +234,8 @@ def run_sweep(spec, res):
         m = dict(family=S.ADMTrig.name, seed=int(rng.integers(1 << 20)), period=2.0, shear=0.3)
     wspec = dict(member=m, style='tensor' if style in ('vacuum',) else style,
                  vacuum=(style == 'vacuum'), Lambda=0.1 if style in ('tensor', 'components') else 0.0,
-                 tetrad=None, n1=(9 if style == 'solution' else 6), order=2,
+                 tetrad=(None if (spec['seed'] // 4) % 2 == 0 else 'fluid'),
+                 n1=(9 if style == 'solution' else 6), order=2,
                  mode=('open' if style == 'solution' else 'periodic'),
                  cache=dict(every=10 ** 9, gb=1e9, importance=None))
     order1 = [keys[i] for i in rng.permutation(len(keys))]
